@@ -5,7 +5,7 @@
 package path
 
 // Every function under contract in this package also serves the properties that depend on the whole package.
-//@ package-props C01 C03 C04 C05 C06 C19
+//@ package-props C01 C03 C04 C05 C06 C19 C12
 
 // ---- the index form of a path as a mathematical sequence -----------------
 // Path and PathElem messages are treated as immutable while indexed (no
